@@ -462,6 +462,7 @@ def parser_rules(P, R):
         R.ob('C12.COPY.1', bool(mm), pf, 'the "::" expansion moves the groups either with an index loop (direction judged) or with memmove (safe for overlap)', key='copydir:none', nontrivial=False)
     R.floor('C12.COPY.1', 1)
     expansion_total(P, R, pf)
+    expansion_count(P, R, pf)
     mapped_form(P, R, pf)
     syntax_only(P, R, pf)
 
@@ -478,6 +479,28 @@ def syntax_only(P, R, pf, rule='C12.GRD.4'):
         n += 1
         byval = [g for g in pf.guards(s.bid) if any(x.get('k') == 'mem' and x.get('field', '').startswith('in6') and root_var(x) is not None and root_var(x)['name'] == addrp for x in walk(g[0]))]
         R.ob(rule, not byval, s, 'this refusal does not depend on the value parsed%s' % ((' (guarded by %s %s %s)' % (sx(byval[0][0]), byval[0][1], sx(byval[0][2]))) if byval else ''), key='syntax-only')
+    # ... nor on WHICH decimal digit a component starts or continues with: digits are handled alike (case labels, isdigit);
+    # a refusal keyed on one particular digit (a leading '0', say) refuses texts the printer produces (0.1.2.3)
+    from . import c13
+    for f in c13.scope(P):
+        for b in f.blocks:
+            for e in f.out[b]:
+                if e.label not in ('true', 'false') or e.cond is None:
+                    continue
+                r = e.rel()
+                if not r or r[1] != '==' or not isinstance(const_of(r[2]), int) or not (48 <= const_of(r[2]) <= 57) or (r[2] or {}).get('k') not in ('chr', 'int'):
+                    continue
+                if not any(x.get('k') in ('idx', 'un') and any(is_var(y) and 'char' in y.get('t', '') and '*' in y.get('t', '') for y in walk(x)) for x in walk(r[0])):
+                    continue
+                d = e.dst
+                hops = 0
+                while hops < 4 and not f.block_sites(d) and len(f.out[d]) == 1:
+                    d = f.out[d][0].dst
+                    hops += 1
+                refuses = c13._ret0_block(f, d)
+                n += 1
+                R.ob(rule, not refuses, P.relloc(f.blocks[b]['term'].get('loc')) if (f.blocks[b].get('term') or {}).get('loc') else f,
+                     'no refusal of %s is keyed on one particular decimal digit (%s == %r)' % (f.name, sx(r[0]), chr(const_of(r[2]))), key='digit-blind:%s' % f.name)
     R.floor(rule, 5, 'failing returns of the parser')
 
 
@@ -503,6 +526,59 @@ def expansion_total(P, R, pf, rule='C12.MPT.2'):
              (e.describe(), (' (found `return %s`)' % sx(rets[0].ev.get('val'))) if rets else ''), key='expansion-exit')
     if n == 0:
         R.ob(rule, True, pf, 'no index-loop expansion to judge (memmove form)', key='expansion-none', nontrivial=False)
+    R.floor(rule, 1)
+
+
+def expansion_count(P, R, pf, rule='C12.MPT.4'):
+    """The "::" stands for exactly the groups that were not written: when the loop that zero-fills the gap is left,
+    groups written + groups zeroed = the length of the group array.  Decided relationally (octagon constraint
+    counter + filled == extent at the loop's exit edge); a fill that stops short leaves a stale group in the address."""
+    from .. import numeric
+    n = 0
+    an = None
+    for s in pf.stores():
+        ev = s.ev
+        lhs = ev.get('lhs') or {}
+        if not (ev['k'] == 'store' and ev.get('op') == '=' and lhs.get('k') == 'idx' and isinstance((lhs.get('base') or {}).get('arr'), int) and const_of(ev.get('rhs')) == 0 and vars_in(lhs['index'])):
+            continue
+        heads = [e.src for e in pf.dominating_edges(s.bid) if e.src in pf.reach([s.bid]) and e.cond is not None]
+        if not heads:
+            continue
+        H = heads[-1]
+        steps = [t for t in pf.stores() if t.ev['k'] == 'store' and is_var(t.ev.get('lhs')) and t.ev.get('op') in ('++', '+=') and t.bid in pf.reach([s.bid]) and H in pf.reach([t.bid])
+                 and t.ev['lhs']['name'] in vars_in(lhs['index'])]
+        if len({t.ev['lhs']['name'] for t in steps}) != 1:
+            continue
+        jj = steps[0].ev['lhs']['name']
+        # the group counter: the variable that subscripts the array with a post-increment when a group is stored
+        cnts = set()
+        for t in pf.stores():
+            l2 = t.ev.get('lhs') or {}
+            ix = l2.get('index') if l2.get('k') == 'idx' and same(l2.get('base'), lhs['base']) else None
+            if isinstance(ix, dict) and ix.get('k') == 'un' and ix.get('op') == '++' and is_var(ix.get('e')):
+                cnts.add(ix['e']['name'])
+        if len(cnts) != 1:
+            R.note('%s: no single group counter found for the zero-fill at %s; not judged' % (rule, s.loc))
+            continue
+        ii = list(cnts)[0]
+        ext = lhs['base']['arr']
+        an = an or numeric.Analysis(pf)
+        lo, hi = None, None
+        for e in pf.out[H]:
+            if s.bid in pf.reach([e.dst], cut_blocks={H}):
+                continue
+            for o in an.at_term(H):
+                for o2 in an._edge(o.copy(), e):
+                    o2.close()
+                    if o2.is_empty():
+                        continue
+                    a, b = -o2.bound_terms({ii: -1, jj: -1}), o2.bound_terms({ii: 1, jj: 1})
+                    lo = a if lo is None else min(lo, a)
+                    hi = b if hi is None else max(hi, b)
+        n += 1
+        R.ob(rule, lo == ext and hi == ext, s, 'when the zero-fill loop is left, groups written (%s) + groups zeroed (%s) = %d: inferred [%s, %s]' % (ii, jj, ext, lo, hi), key='expansion-count')
+    if n == 0:
+        R.ob(rule, True, pf, 'no index-loop zero fill to judge (block form)', key='expansion-count-none', nontrivial=False)
     R.floor(rule, 1)
 
 
